@@ -9,6 +9,27 @@ from __future__ import annotations
 
 CONSTS = [0, 1, 2, "s", "", None, True, False, 3.5, (1, 2)]
 FALSY_TRUTHY = [0, 1, "", "s", None, True, False, [], [0], (), 2.5]
+
+
+class Toggle:
+    """A constant whose truthiness may change between the description of a DAG and each of its calls (a feature switch)."""
+
+    def __init__(self, name):
+        self.name = name
+        self.on = False
+
+    def __bool__(self):
+        return self.on
+
+    def __repr__(self):
+        return self.name
+
+
+# names bound (to the same objects) in the tawazi environment and in the reference environment
+from .sym import Opaque  # noqa: E402
+
+NAMED_CONSTS = {"OPQ0": Opaque("const", 0), "OPQ1": Opaque("const", 1), "MUT0": Toggle("MUT0"), "MUT1": Toggle("MUT1")}
+TOGGLES = [NAMED_CONSTS["MUT0"], NAMED_CONSTS["MUT1"]]
 BINOPS = ["+", "-", "*", "<", ">=", "==", "!=", "&", "|", "^", "//", "%", "<=", ">", "@", "**", "<<", ">>", "/"]
 UNOPS = ["-", "+", "~", "abs"]
 RES = ["thread", "thread", "async-thread", "main-thread"]
@@ -29,7 +50,7 @@ class Gen:
         specs = {}
         for _ in range(nfn):
             name = self.fresh(pfx + "f")
-            shape = rng.choice([None, None, None, ["tuple", rng.randint(1, 3)], ["list", 2], ["dict"]])
+            shape = rng.choice([None, None, None, ["tuple", rng.randint(1, 3)], ["list", 2], ["dict"], ["tdict"]])
             unpack = shape[1] if shape and shape[0] in ("tuple", "list") and rng.random() < 0.6 else None
             specs[name] = dict(
                 shape=shape, unpack_to=unpack, priority=rng.choice([0, 0, 1, 5, -1, 3]),
@@ -81,6 +102,9 @@ class Gen:
                         return v
                 if sh and sh[0] == "dict" and rng.random() < 0.7:
                     return rng.choice(['%s["a"]' % v, '%s["b"][1]' % v, '%s["b"]' % v])
+                if sh and sh[0] == "tdict" and rng.random() < 0.8:
+                    # a table keyed by TUPLES: v["r", "c"] is one key, v["r"]["c"] is another entry
+                    return rng.choice(['%s["r", "c"]' % v, '%s["r"]["c"]' % v, '%s[("r", "c")]' % v, '%s[1, 0]' % v, '%s[1][0]' % v])
                 if sh and sh[0] in ("tuple", "list") and rng.random() < 0.7:
                     return "%s[%d]" % (v, rng.randrange(sh[1]))
                 if sh is None and info["plain"] and not info.get("elem") and rng.random() < f.get("index_plain", 0.12):
@@ -90,6 +114,10 @@ class Gen:
             if for_op:
                 # numeric constants only: `'s' % x` is string formatting (a constant), not an operator node
                 return repr(rng.choice([0, 1, 2, 3.5, True, -1]))
+            if for_flag and rng.random() < f.get("toggles", 0.12):
+                return rng.choice(["MUT0", "MUT1"])  # constant flag whose truthiness is only known when the call runs
+            if not for_flag and rng.random() < f.get("opaque_consts", 0.08):
+                return rng.choice(["OPQ0", "OPQ1"])  # identity-sensitive, uncopyable constant
             pool = FALSY_TRUTHY if for_flag else CONSTS
             return repr(rng.choice(pool))
 
@@ -125,6 +153,10 @@ class Gen:
                                   parent_specs=specs)
                 if flagged and not ip["flagfree"]:
                     flagged = False
+                if rng.random() < f.get("same_name_inner", 0.3):
+                    # inner DAG functions made by factories: every one of them is called `stage`, only the QUALIFIED names differ
+                    ip["pyname"] = "stage"
+                    ip["qualname"] = "make_%s.<locals>.stage" % iname
                 prog["inner"][iname] = ip
                 nreq = len(ip["params"]) - len(ip["defaults"])
                 na = rng.randint(nreq, len(ip["params"]))
